@@ -4,6 +4,9 @@ from sa.rules import ownrule, pure, globals as G, exh
 
 
 def check(ix, rep):
+    from sa.rules import round11 as _r11
+    _r11.check_descriptors(ix, rep)
+    rep.floor('functions between the data set and the monitor checked for re-ordering', _r11.check_sample_order(ix, rep), 4)
     tier_pkg = rep.tier == 'thorough'
     n = ownrule.run(ix, rep, scope='package' if tier_pkg else 'anchored')
     rep.floor('functions in the ownership analysis', n, 250)
